@@ -573,11 +573,12 @@ TARGETS = {os.path.join('OnlVerif', 'Generated', 'TcpCC.lean'): generate_tcpcc}
 
 def all_targets():
     """every generated file: {path relative to lean/: generator}; the element targets live in `py2lean/elements.py`, the kernel
-    targets in `py2lean/kernel.py`"""
-    from py2lean import elements, kernel
+    targets in `py2lean/kernel.py`, those of C13 / C19 / C20 in `py2lean/more.py`"""
+    from py2lean import elements, kernel, more
     t = dict(TARGETS)
     t.update(elements.TARGETS)
     t.update(kernel.TARGETS)
+    t.update(more.TARGETS)
     return t
 
 
